@@ -458,6 +458,24 @@ def enum_paths(stmts: Sequence[ast.AST], cap: int = 10000) -> List[Path]:
     return paths
 
 
+def _surely_none(v: ast.AST) -> Optional[bool]:
+    """True: the expression is the constant None; False: it can never be None (a literal, a comparison, formatted
+    text); None: unknown."""
+    if isinstance(v, ast.Constant):
+        return v.value is None
+    if isinstance(v, (ast.JoinedStr, ast.Compare, ast.List, ast.Tuple, ast.Dict, ast.Set)):
+        return False
+    if isinstance(v, ast.Call) and isinstance(v.func, ast.Attribute) and v.func.attr in ("format", "join") \
+            and isinstance(v.func.value, (ast.Constant, ast.JoinedStr)) and isinstance(getattr(v.func.value, "value", ""), str):
+        return False
+    if isinstance(v, ast.BinOp) and isinstance(v.op, (ast.Mod, ast.Add)) and isinstance(v.left, ast.Constant) \
+            and isinstance(v.left.value, str):
+        return False
+    if isinstance(v, ast.UnaryOp) and isinstance(v.op, ast.Not):
+        return False
+    return None
+
+
 def resolve_flags(paths: List[Path]) -> List[Path]:
     """Boolean flags are read as what they were last set to on the path: a test `if flag:` (or `not flag`) where `flag`
     was assigned earlier on the same path becomes a test of the assigned expression; a path on which a flag holding a
@@ -473,7 +491,7 @@ def resolve_flags(paths: List[Path]) -> List[Path]:
                 st = ev[1]
                 if isinstance(st, ast.Assign) and len(st.targets) == 1 and isinstance(st.targets[0], ast.Name):
                     v = st.value
-                    if isinstance(v, (ast.Compare, ast.BoolOp, ast.Constant, ast.UnaryOp, ast.Call, ast.Name)):
+                    if isinstance(v, (ast.Compare, ast.BoolOp, ast.Constant, ast.UnaryOp, ast.Call, ast.Name, ast.JoinedStr, ast.BinOp)):
                         # read the value through earlier flags as well
                         if isinstance(v, ast.Name) and v.id in env:
                             v = env[v.id]
@@ -497,6 +515,22 @@ def resolve_flags(paths: List[Path]) -> List[Path]:
                 inner, neg = t, False
                 while isinstance(inner, ast.UnaryOp) and isinstance(inner.op, ast.Not):
                     inner, neg = inner.operand, not neg
+                # `flag is None` / `flag is not None` where the flag was last set to None or to a value that is never None
+                if isinstance(inner, ast.Compare) and len(inner.ops) == 1 and isinstance(inner.ops[0], (ast.Is, ast.IsNot)) \
+                        and isinstance(inner.left, ast.Name) and inner.left.id in env \
+                        and isinstance(inner.comparators[0], ast.Constant) and inner.comparators[0].value is None:
+                    isnone = _surely_none(env[inner.left.id])
+                    if isnone is not None:
+                        truth = isnone if isinstance(inner.ops[0], ast.Is) else not isnone
+                        if (truth != neg) != pol:
+                            feasible = False
+                            break
+                        continue
+                    events.append(ev)
+                    continue
+                if isinstance(inner, ast.Name) and inner.id in env and isinstance(env[inner.id], (ast.JoinedStr, ast.BinOp)):
+                    events.append(ev)
+                    continue
                 if isinstance(inner, ast.Name) and inner.id in env:
                     val = env[inner.id]
                     if isinstance(val, ast.Constant) and (isinstance(val.value, (bool, int, str)) or val.value is None):
